@@ -55,6 +55,8 @@ pub struct RelayCtl {
     pub cut_now: bool,
     pub frames: u64,
     pub closed: bool,
+    /// one-way latency of the link in (virtual) milliseconds: every frame is forwarded that much after it was read
+    pub latency_ms: u64,
 }
 
 /// Handle on a relayed connection: lets a scenario cut it
@@ -121,6 +123,18 @@ pub fn relayed_pair(conn: &str, seed: u64, cut_after_frames: Option<u64>) -> (Pi
                         break;
                     }
                     g.frames += 1;
+                }
+                let lat = ctl.lock().unwrap().latency_ms;
+                if lat > 0 {
+                    // a slow link: the frame is in flight for `lat` ms (a cut meanwhile loses it)
+                    let cut = tokio::select! {
+                        biased;
+                        _ = stop.notified() => true,
+                        _ = ractor::concurrency::sleep(std::time::Duration::from_millis(lat)) => false,
+                    };
+                    if cut {
+                        break;
+                    }
                 }
                 let mut buf = hdr.to_vec();
                 buf.extend_from_slice(&payload);
